@@ -319,7 +319,7 @@ def classify(label, cls):
 def run(rep, tier, rng, replay=None):
     ok = core.proof_step(rep, "C10", thorough=(tier == "thorough"))
     rep.cov["trusted_base"] = core.TRUSTED_COMMON + [
-        "the XML text of every finalize is taken from the implementation's device image and given to the model as the value of gen_xml (XML generation: C04)",
+        "Rust's Display for f64/f32 is an oracle (harness FDISPLAY, checked to be plain text that parses back); the model generates the whole file itself (XmlGen.gen_root), the XML bytes are borrowed from the implementation only for sequences with a float text missing from the table (counted: xml_borrowed_fallback)",
         "the reader (E57Reader, roxmltree) is used as the observer of what a finished file contains; the documented rules are re-read independently in tools/vlib/wapi.py",
         "device faults and failing Read sources are not part of this property's model (C16)"]
     if not ok:
@@ -328,7 +328,8 @@ def run(rep, tier, rng, replay=None):
         cases = [("replay", wapi.calls_of_tokens(replay["calls"]))]
     else:
         cases = gen_proto_cases(rng, tier) + gen_capacity_cases(rng, tier) + gen_value_cases(rng, tier) + gen_order_cases(rng, tier)
-    outs = wapi.run_all([c for _, c in cases])
+    tie_stats = {}
+    outs = wapi.run_all([c for _, c in cases], tie_stats)
     rep.count(len(cases))
     n_dir = n_corr = 0
     labels, result_classes, rejected_calls, accepted_calls = {}, {}, 0, 0
@@ -359,6 +360,10 @@ def run(rep, tier, rng, replay=None):
             rep.violation("correspondence-c10", "%s [%s]" % (diff, label),
                           dict(kind="wapi-calls", calls=toks, label=label, failing="correspondence writer API model vs implementation",
                                impl=o["impl"].split(" | xml=")[0][:1500], model=o["model"][:1500]), no_input=True)
+    fd_bad = tie_stats.pop("_fd_bad", [])
+    if fd_bad:
+        rep.violation("float-oracle", "Rust's Display/parse of a float does not satisfy the oracle hypotheses: %r" % (fd_bad[:2],), dict(kind="float-oracle", bad=[list(x) for x in fd_bad]), no_input=True)
+    rep.cov.update(tie_stats)
     rep.cov.update(sequences=len(cases), families=labels, call_results=result_classes, rejected_calls=rejected_calls, accepted_calls=accepted_calls,
                    direct_failures=n_dir, correspondence_failures=n_corr, traces_validated_against_impl=len(cases))
     mid = len(cases) // 3
